@@ -24,5 +24,9 @@ def run(ctx):
     ctx.exec_validate(exe, chunks, lambda c: [" ".join(map(str, h)) for h in c], "StrOpsTrace.tla", "StrOpsTrace.cfg",
                       label="x02")
     ctx.cov["calls"] = len(hs)
+    # no closed model is explored here: the states / transitions are the recorded calls TLC judged against StrOps
+    ctx.cov["states"] += len(hs)
+    ctx.cov["transitions"] += len(hs)
+    ctx.cov["states_are"] = "recorded calls judged by TLC (trace validation), not states of a closed model"
     ctx.cov["exhaustive"] = True
     ctx.assumptions += ["destination buffers hold a NUL (a proper string) and the size argument does not exceed the buffer"]
